@@ -298,6 +298,7 @@ def main(tier):
     rule_first_flag(ck, units)
     import rmerge
     rmerge.rule_rmerge(ck, units, control=cu['controls'])
+    rmerge.rule_factor_order(ck, units)
     ck.assumptions += ['that the kernels compute the products, sums and transposes their definitions prescribe (values, well-formed CRS structure), merge_rows of the row-merge kernel, the Gershgorin / power-method bounds '
                        'themselves and the block-to-pointwise reduction are NOT decided: they quantify over values',
                        'operator* of the value types is the algebraic product']
